@@ -48,8 +48,9 @@ def run_tlc(module, cfg, workers=4, env=None, timeout=3600, extra=(), scratch=No
     stats["rc"] = p.returncode
     return out, stats
 
-def parse_printed_json(out):
-    """lines printed by PrintT(ToJson(x)): a TLA+ string literal holding JSON"""
+def parse_printed_json(out, strict=True):
+    """lines printed by PrintT(ToJson(x)): a TLA+ string literal holding JSON. With strict=False a line that does not parse
+    (two workers' output interleaved, very rarely) is dropped: the caller notices the missing verdict and runs the shard again."""
     res = []
     for line in out.splitlines():
         line = line.strip()
@@ -60,7 +61,8 @@ def parse_printed_json(out):
                 try:
                     res.append(json.loads(line[1:-1].replace('\\"', '"').replace("\\\\", "\\")))
                 except Exception:
-                    raise MachineryError("unparsable verdict line: %s" % line[:200])
+                    if strict:
+                        raise MachineryError("unparsable verdict line: %s" % line[:200])
     return res
 
 def validate_shard(path, workers=2, timeout=3600, scratch=None, max_retries=25, module="Trace"):
@@ -76,9 +78,21 @@ def validate_shard(path, workers=2, timeout=3600, scratch=None, max_retries=25, 
             out, stats = run_tlc(module + ".tla", module + ".cfg", workers=workers, env={"TRACE_FILE": cur}, timeout=timeout, scratch=scratch)
             for k in ("generated", "distinct", "wall_s"):
                 total[k] += stats[k]
-            for v in parse_printed_json(out):
-                verdicts[v["id"]] = v
+            for v in parse_printed_json(out, strict=False):
+                if "id" in v:
+                    verdicts[v["id"]] = v
             if "Error:" not in out:
+                if out.count('"{') > len(parse_printed_json(out, strict=False)) and workers > 1 and attempt < max_retries:
+                    # a printed line was garbled by concurrent workers: run what is still undecided again, single-threaded
+                    if doc is None:
+                        with open(path) as f:
+                            doc = json.load(f)
+                    doc["done"] = sorted(verdicts)
+                    cur = path + ".retry"
+                    with open(cur, "w") as f:
+                        json.dump(doc, f, separators=(",", ":"))
+                    workers = 1
+                    continue
                 break
             m = re.search(r"/\\ cid = (\d+)", out)
             if not m:
